@@ -94,3 +94,17 @@ pub struct W4;
 /// let _m = Message::<u8, u8>::Error(Arc::new(std::fmt::Error));
 /// ```
 pub struct W5;
+
+/// W6 - `combine!` keeps member order: the output tuple's i-th component has the i-th member's item type.
+///
+/// ```no_run
+/// use callbag::{combine, from_iter, Source};
+/// let _s: Source<(u8, u16)> = combine!(from_iter(vec![1u8]), from_iter(vec![2u16]));
+/// let _t: Source<(u8, u16, u32)> = combine!(from_iter(vec![1u8]), from_iter(vec![2u16]), from_iter(vec![3u32]),);
+/// ```
+/// swapped:
+/// ```compile_fail,E0308
+/// use callbag::{combine, from_iter, Source};
+/// let _s: Source<(u16, u8)> = combine!(from_iter(vec![1u8]), from_iter(vec![2u16]));
+/// ```
+pub struct W6;
